@@ -26,7 +26,7 @@ class C04(Prop):
     id = "C04"
     title = "Energy ledger: no overdraft, exact charging, free failures, bounded total spend"
     fixed_prefix = 2
-    quick_budget = 2500
+    quick_budget = 4000
     thorough_budget = 60000
     quick_deadline_s = 120
     thorough_deadline_s = 900
@@ -236,8 +236,16 @@ class C04(Prop):
             for k in range(1, depth + 1):
                 for ops in itertools.product(alpha, repeat=k):
                     cases.append({"lines": list(cfg) + list(ops), "note": f"exhaustive depth {k}"})
+        # long histories: the transaction log cap (1000 entries) and a paying loop that must be refused in the end
+        long_cases = [
+            {"lines": ["new 3 0 0 0 1 10", "new 0 0 0 0 1 10"] + ["consume 0 0 atp 0 0"] * 1003 + ["consume 0 4 atp 0 0"] * 3
+                      + ["rst 0", "consume 0 1 atp 0 0"], "note": "transaction log reaches its cap of 1000"},
+            {"lines": ["new 20 5 7 30 1 4", "new 0 0 0 0 1 10"] + ["consume 0 1 atp 1 10", "interest 0"] * 70,
+             "note": "paying loop with interest: refused once balances + debt limit are used up"},
+        ]
         return [{"name": f"all histories of <= {depth} ops over a 13-op alphabet on 3 two-store configurations",
-                 "cases": cases}]
+                 "cases": cases},
+                {"name": "two long fixed histories (transaction-log cap, paying loop)", "cases": long_cases}]
 
     # --- implementation -----------------------------------------------------------------------------------
     def _show_store(self, s):
